@@ -556,6 +556,10 @@ class MultiScaling(object):
         elif hasattr(scaling, 'input_source'):
             input_data = self._compute_scaled_data(
                 scaling.input_source, raw_channel_data)
+            if not isinstance(scaling, NoOpScaling):
+                # These scalings produce double data (see _compute_scale_dtype),
+                # so ensure single precision input is converted before scaling
+                input_data = input_data.astype(np.dtype('float64'), copy=False)
             return scaling.scale(input_data)
         elif (hasattr(scaling, 'left_input_source') and
               hasattr(scaling, 'right_input_source')):
